@@ -28,6 +28,9 @@ def run(ctx):
     bad = [s for s in scs if s["fault"]["p"] == "badpatch"] + [s for s in fr.enumerate_scenarios(1, faults=["badpatch"]) if s["flags"]["diff"] or s["flags"]["print"]]
     scs = [s for s in scs if s["fault"]["p"] != "badpatch"]
     scs = pick(ctx, scs, 860 if quick else 12000) + pick(ctx, bad, 40 if quick else 400) + pick(ctx, dry, 150 if quick else 2000)
+    # many failing files in one run (the exit status is one byte wide: counts at and around its multiples)
+    for n in ((255, 256) if quick else (255, 256, 257, 512, 768)):
+        scs.append(dict(kinds=["unparseable"] * n + ["match"], flags=wr[ctx.rng.randrange(len(wr))], fault=dict(f=0, p="none")))
     real = [fr.realise(ctx, s, "c16-%d" % i, ctx.rng) for i, s in enumerate(scs)]
     recs = fr.run_cli(ctx, real, "c16")
     results = fr.validate(ctx, "c16", recs, ref)
